@@ -328,6 +328,11 @@ func ruleActionFromStr(s string) rules.RuleAction {
 		return rules.RuleActionAllow
 	case "deny":
 		return rules.RuleActionDeny
+	case "":
+		// Felix sends an empty default action for a tier whose resource does not exist (any more)
+		// while policies still name it.  Like the iptables, nftables and BPF dataplanes (and the
+		// end-of-tier check in checkTiers), treat anything but Pass as Deny rather than failing.
+		return rules.RuleActionDeny
 	case "pass":
 		return rules.RuleActionPass
 	default:
